@@ -7,6 +7,7 @@ package datachannel
 import (
 	"errors"
 	"io"
+	"sync"
 	"time"
 
 	"github.com/pion/logging"
@@ -88,6 +89,8 @@ type DataChannel struct {
 	Config
 	assoc *sctp.Association
 	id    uint16
+	// mu makes the fake usable by free-running goroutines (conformance run); critical sections never block
+	mu sync.Mutex
 
 	inbox       []Msg
 	ackPending  bool // the peer's DCEP ack arrived and has not been processed by a reader yet
@@ -144,41 +147,56 @@ func (c *DataChannel) StreamIdentifier() uint16 { return c.id }
 func (c *DataChannel) ReadDataChannel(p []byte) (int, bool, error) {
 	for {
 		sctp.Hooks.Wait("dc-read", func() bool {
+			c.mu.Lock()
+			defer c.mu.Unlock()
+
 			return len(c.inbox) > 0 || c.ackPending || c.peerReset || c.assoc.Aborted()
 		})
+		c.mu.Lock()
 		switch {
 		case c.ackPending:
 			c.ackPending = false
-			c.fireOpen()
+			fire := c.fireOpenLocked()
+			c.mu.Unlock()
+			if fire != nil {
+				sctp.Hooks.Go(fire)
+			}
 
 			continue
 		case len(c.inbox) > 0:
 			m := c.inbox[0]
 			c.inbox = c.inbox[1:]
 			if len(m.Data) > len(p) {
+				c.mu.Unlock()
+
 				return len(m.Data), false, io.ErrShortBuffer
 			}
 			c.msgsRecv++
 			c.bytesRecv += uint64(len(m.Data))
+			c.mu.Unlock()
 
 			return copy(p, m.Data), m.IsString, nil
 		case c.peerReset:
 			// "When the peer sees that an incoming stream was reset, it also resets its corresponding outgoing stream."
 			c.localClosed = true
+			c.mu.Unlock()
 
 			return 0, false, io.EOF
 		default:
+			c.mu.Unlock()
+
 			return 0, false, sctp.ErrAborted
 		}
 	}
 }
 
-func (c *DataChannel) fireOpen() {
+func (c *DataChannel) fireOpenLocked() func() {
 	if c.openFired || c.onOpen == nil {
-		return
+		return nil
 	}
 	c.openFired = true
-	sctp.Hooks.Go(c.onOpen)
+
+	return c.onOpen
 }
 
 // Read implements io.Reader.
@@ -193,6 +211,8 @@ func (c *DataChannel) WriteDataChannel(p []byte, isString bool) (int, error) {
 	if c.assoc.Aborted() {
 		return 0, sctp.ErrAborted
 	}
+	c.mu.Lock()
+	defer c.mu.Unlock()
 	if c.localClosed {
 		return 0, ErrStreamClosed
 	}
@@ -206,16 +226,30 @@ func (c *DataChannel) Write(p []byte) (int, error) { return c.WriteDataChannel(p
 
 // Close resets the outgoing stream; reads end only when the peer resets its side (EnvPeerReset) or the association ends.
 func (c *DataChannel) Close() error {
+	c.mu.Lock()
 	c.localClosed = true
+	c.mu.Unlock()
 
 	return nil
 }
 
 func (c *DataChannel) SetReadDeadline(time.Time) error  { return nil }
 func (c *DataChannel) SetWriteDeadline(time.Time) error { return nil }
-func (c *DataChannel) MessagesSent() uint32             { return uint32(len(c.Sent)) }
-func (c *DataChannel) MessagesReceived() uint32         { return c.msgsRecv }
+func (c *DataChannel) MessagesSent() uint32 {
+	c.mu.Lock()
+	defer c.mu.Unlock()
+
+	return uint32(len(c.Sent))
+}
+func (c *DataChannel) MessagesReceived() uint32 {
+	c.mu.Lock()
+	defer c.mu.Unlock()
+
+	return c.msgsRecv
+}
 func (c *DataChannel) BytesSent() uint64 {
+	c.mu.Lock()
+	defer c.mu.Unlock()
 	var n uint64
 	for _, m := range c.Sent {
 		n += uint64(len(m.Data))
@@ -223,30 +257,65 @@ func (c *DataChannel) BytesSent() uint64 {
 
 	return n
 }
-func (c *DataChannel) BytesReceived() uint64 { return c.bytesRecv }
+func (c *DataChannel) BytesReceived() uint64 {
+	c.mu.Lock()
+	defer c.mu.Unlock()
+
+	return c.bytesRecv
+}
 
 // OnOpen registers the handler fired when the peer's DCEP ack has been processed.
 func (c *DataChannel) OnOpen(f func()) {
+	c.mu.Lock()
 	c.onOpen = f
 	c.openFired = false
+	c.mu.Unlock()
 }
-func (c *DataChannel) BufferedAmount() uint64                 { return 0 }
-func (c *DataChannel) BufferedAmountLowThreshold() uint64     { return c.bufferedAmountLowThreshold }
-func (c *DataChannel) SetBufferedAmountLowThreshold(t uint64) { c.bufferedAmountLowThreshold = t }
-func (c *DataChannel) OnBufferedAmountLow(f func())           { c.onBufferedAmountLow = f }
+func (c *DataChannel) BufferedAmount() uint64 { return 0 }
+func (c *DataChannel) BufferedAmountLowThreshold() uint64 {
+	c.mu.Lock()
+	defer c.mu.Unlock()
+
+	return c.bufferedAmountLowThreshold
+}
+func (c *DataChannel) SetBufferedAmountLowThreshold(t uint64) {
+	c.mu.Lock()
+	c.bufferedAmountLowThreshold = t
+	c.mu.Unlock()
+}
+func (c *DataChannel) OnBufferedAmountLow(f func()) {
+	c.mu.Lock()
+	c.onBufferedAmountLow = f
+	c.mu.Unlock()
+}
 
 // ---- environment events (harness) ----
 
 // EnvDeliver: a message from the peer arrives.
 func (c *DataChannel) EnvDeliver(data []byte, isString bool) {
+	c.mu.Lock()
 	c.inbox = append(c.inbox, Msg{Data: data, IsString: isString})
+	c.mu.Unlock()
 }
 
 // EnvAckOpen: the peer's DCEP ack arrives.
-func (c *DataChannel) EnvAckOpen() { c.ackPending = true }
+func (c *DataChannel) EnvAckOpen() {
+	c.mu.Lock()
+	c.ackPending = true
+	c.mu.Unlock()
+}
 
 // EnvPeerReset: the peer resets its outgoing stream (answering our reset, or closing itself).
-func (c *DataChannel) EnvPeerReset() { c.peerReset = true }
+func (c *DataChannel) EnvPeerReset() {
+	c.mu.Lock()
+	c.peerReset = true
+	c.mu.Unlock()
+}
 
 // LocalClosed reports whether Close was called / the stream was reset locally.
-func (c *DataChannel) LocalClosed() bool { return c.localClosed }
+func (c *DataChannel) LocalClosed() bool {
+	c.mu.Lock()
+	defer c.mu.Unlock()
+
+	return c.localClosed
+}
